@@ -105,18 +105,18 @@ Hypotheses: the block lies inside the initialized bytes of its interval; block i
 below the model's id counter (`IdsBelow`: true of every state the harness hands to the
 model, and kept by every operation); the blocks of each patch are new objects when the
 patch is inserted (`NewBlocks`); `Disjoint` is what `resolve_offsets` establishes. -/
-theorem loop_is_listing {ir ir' : IR} {b i : Nat} {blk : Block} {iv : Interval} {ms : List Mod}
-    (h : ir.applyMods blk.off (some b) 0 ms = .ok ir')
+theorem loop_is_listing {ir ir' : IR} {b i : Nat} {blk : Block} {iv : Interval} {ms : List Mod} {func : Option Nat}
+    (h : ir.applyMods blk.off func (some b) 0 ms = .ok ir')
     (hb : ir.block? b = some blk) (hbi : blk.bi = some i) (hiv : ir.interval? i = some iv)
     (hfit : blk.off + blk.size ≤ iv.bytes.length)
-    (hI : IdsBelow ir) (hnew : NewBlocks blk.off ir (some b) 0 ms)
+    (hI : IdsBelow ir) (hnew : NewBlocks blk.off func ir (some b) 0 ms)
     (hd : Disjoint blk.size 0 (ms.map Mod.toLEdit)) :
     ir'.bytesOf i = some (iv.bytes.take blk.off ++
         spliceSpec ((iv.bytes.drop blk.off).take blk.size) 0 (ms.map Mod.toLEdit) ++
         iv.bytes.drop (blk.off + blk.size)) ∧
     ∀ j, j ≠ i → ir.bytesOf j ≠ none → ir'.bytesOf j = ir.bytesOf j := by
   have hcur : ir.bytesOf i = some iv.bytes := by unfold IR.bytesOf; rw [hiv]; rfl
-  obtain ⟨r1, r2⟩ := applyMods_bytes blk.off i ms ir ir' (some b) 0 iv.bytes h
+  obtain ⟨r1, r2⟩ := applyMods_bytes blk.off i func ms ir ir' (some b) 0 iv.bytes h
     (fun a ha => by injection ha with ha; subst ha; exact ⟨blk, hb, Or.inl hbi⟩) hI hnew hcur
   refine ⟨?_, r2⟩
   rw [r1]
@@ -144,7 +144,7 @@ private def exMods : List Mod := [.del 0 1 false, .del 2 1 false]
 example : exIR.block? 1 = some { id := 1, isCode := false, bi := some 7, off := 1, size := 4 } := rfl
 example : IdsBelow exIR := by intro k hk; simp [IR.ids, exIR] at hk; subst hk; decide
 example : Disjoint 4 0 (exMods.map Mod.toLEdit) := by simp [Disjoint, exMods, Mod.toLEdit, Mod.off, Mod.len]
-example : NewBlocks 1 exIR (some 1) 0 exMods := by
+example : NewBlocks 1 none exIR (some 1) 0 exMods := by
   unfold exMods NewBlocks
   intro ir' r _
   cases r with
@@ -155,7 +155,7 @@ example : NewBlocks 1 exIR (some 1) 0 exMods := by
     · trivial
     · intro _ _ _; simp [NewBlocks]
 /-- the loop succeeds on it, and the bytes are the listing's: `1` and `3` are gone -/
-example : ((exIR.applyMods 1 (some 1) 0 exMods).toOption.bind (·.bytesOf 7)) = some [0, 2, 4] := by decide +kernel
+example : ((exIR.applyMods 1 none (some 1) 0 exMods).toOption.bind (·.bytesOf 7)) = some [0, 2, 4] := by decide +kernel
 
 
 private def e1 : LEdit := { block := 0, off := 1, del := 0, ins := [9, 9], labels := [], aligns := [], proxy := false, order := 0, tailCode := true, exprs := [], exprSizes := [] }
